@@ -69,6 +69,7 @@ type catTx struct {
 	Outs   []catOut          `json:"outs"`
 	Reads  map[string]string `json:"reads"`
 	Writes map[string]string `json:"writes"`
+	Bad    string            `json:"bad"`
 }
 type catalog struct {
 	Tx      map[string]catTx `json:"tx"`
@@ -213,8 +214,12 @@ func (s *xsim) tx(name string) (*pb.Transaction, error) {
 			return nil, err
 		}
 		o := s.outOf(r.name, r.off)
+		cited := o.Amt
+		if c.Bad == "amount" {
+			cited-- // the input cites less than the output holds
+		}
 		tx.TxInputs = append(tx.TxInputs, &protos.TxInput{RefTxid: ref.Txid, RefOffset: int32(r.off),
-			FromAddr: []byte(addrOf(o.To)), Amount: amtBytes(o.Amt, false), FrozenHeight: o.Fz})
+			FromAddr: []byte(addrOf(o.To)), Amount: amtBytes(cited, false), FrozenHeight: o.Fz})
 		addSigner(o.To)
 	}
 	for _, o := range c.Outs {
